@@ -176,6 +176,18 @@ def _get_server():
     return _server
 
 
+def _send(req):
+    srv = _get_server()
+    srv.stdin.write(json.dumps(req) + "\n")
+    srv.stdin.flush()
+    line = srv.stdout.readline()
+    if not line:
+        raise core.Inconclusive("fork server died")
+    res = json.loads(line)
+    res["events"] = [tuple(e) for e in res["events"]]
+    return res
+
+
 def _call_in_child(root, scn, kill_at=None, workers=0):
     """runs the real function in a forked child (of the light fork server) under the audit monitor.
     returns dict(status=returned|killed|raised, result=..., events=[(name, paths, mutating)], err=str)"""
@@ -276,6 +288,11 @@ def gen_cases(run):
         for uname, user in (("empty", {}), ("files", {"mine.txt": b"user data", "sub": None, "sub/z.bin": b"\x00\x01"})):
             if mine():
                 yield {"scn": scn, "kills": [], "user": uname, "user_files": {k: (v.decode("latin1") if v is not None else None) for k, v in user.items()}}
+    # several calls in ONE process with the source re-packed in between (raw folder -> folder of zips and back): state that
+    # survives between two calls of the same process must not leak into the second copy
+    for direction in ("raw->zips", "zips->raw"):
+        if mine():
+            yield {"scn": {"fn": "folder", "fmt": "raw" if direction.startswith("raw") else "zips", "rel": None, "parent": True}, "kills": [], "same_process": direction}
     if run.tier == "quick":
         # one uninterrupted folder-of-zips copy through joblib workers (3 zips on 2 workers: more jobs than workers, not divisible)
         wscn = {"fn": "folder", "fmt": "zips", "rel": None, "parent": True}
@@ -329,6 +346,8 @@ def run_case(run, spec):
     scn = spec["scn"]
     if "strace_frac" in spec:
         return _run_strace(run, spec)
+    if "same_process" in spec:
+        return _run_same_process(run, spec)
     workers = spec.get("workers", 0)
     root = Path(tempfile.mkdtemp(prefix="kdv_c20_"))
     try:
@@ -529,5 +548,46 @@ def _run_strace(run, spec):
             return
         if len(run.samples) < 8:
             run.sample({"scenario": _desc(scn), "syscall_level_death_at": f"{when}/{n_sys}", "state_after_death": shape, "recovery_result": res["result"]})
+    finally:
+        shutil.rmtree(root, ignore_errors=True)
+
+
+# ------------------------------------------------------------------------------------------------ same-process sequences
+def _run_same_process(run, spec):
+    scn = spec["scn"]
+    root = Path(tempfile.mkdtemp(prefix="kdv_c20p_"))
+    try:
+        expected = _prepare(root, scn)
+        g, l, rel, dst = _paths(root, scn)
+        to = "zips" if spec["same_process"] == "raw->zips" else "raw"
+        if spec["same_process"] == "zips->raw":
+            pass
+        l2 = root / "local_second" / "ds"
+        call1 = {"fn": "folder", "g": str(g), "l": str(l), "rel": None, "workers": 0}
+        call2 = {"fn": "folder", "g": str(g), "l": str(l2), "rel": None, "workers": 0}
+        (root / "local_second").mkdir(parents=True, exist_ok=True)
+        res = _send({"root": str(root), "seq": [{"call": call1}, {"repack": {"src": str(g), "to": to}}, {"call": call2}]})
+        run.count("fs_events_observed", len(res["events"]))
+        run.cover("same-process", spec["same_process"])
+        what = f"two copies of the same source path in one process, the source re-packed in between ({spec['same_process']})"
+        if res["status"] != "returned":
+            run.count("calls_raised")
+            notes = run.notes.setdefault("raised_examples", [])
+            if len(notes) < 5:
+                notes.append(f"{what}: {str(res.get('err'))[:200]}")
+            return
+        run.count("same_process_sequences")
+        r1, r2 = res["result"]["results"]
+        fmt2 = "zips" if to == "zips" else "raw"
+        for name, d, r, fmt in (("first", l, r1, scn["fmt"]), ("second", l2, r2, fmt2)):
+            snap = _snapshot(d)
+            body = {a: b for a, b in (snap or {}).items() if a not in _NOT_DATA}
+            if body != expected:
+                run.violation("returns-on-incomplete-copy:same-process-sequence", f"{what}: the {name} call returned normally ({r}) but its destination is not a complete copy of the source "
+                                                                                 f"(missing {sorted(set(expected) - set(body))[:4]}, unexpected {sorted(set(body) - set(expected))[:4]})")
+                return
+            if not r.get("was_copied") or r.get("source_format") != fmt:
+                run.violation("result:source_format", f"{what}: the {name} call reports {r} for a '{fmt}' source")
+                return
     finally:
         shutil.rmtree(root, ignore_errors=True)
